@@ -187,4 +187,22 @@ theorem refines_McBlockExtra : Refines (SrcBlk.McBlockExtra false) mcBlockExtra 
       beginParse_mk]
   simp [*, loadMaybeRef_eq_optional, viewMaybe_id]
 
+/-! ### account blocks, block extra -/
+
+theorem refines_AccountBlock : RefinesP PV (SrcBlk.AccountBlock false) accountBlock view_AccountBlock := by
+  have htx : RefinesP PV (Rd.viaRef (SrcTx.Transaction 3)) (ref transaction) (Tx.view_Transaction 3) :=
+    (Tx.refines_Transaction 3).toE.viaRef
+  tx_refine [accountBlock, SrcBlk.AccountBlock, view_AccountBlock,
+    augInlKV (x := Rd.viaRef (SrcTx.Transaction 3)) (y := SrcTx.CurrencyCollection false) htx Tx.refines_CurrencyCollection 64,
+    refK (r := Src.HashUpdate) refines_HashUpdate]
+
+theorem nonUnit_mcBlockExtra : NonUnit mcBlockExtra := by unfold mcBlockExtra; tlb_nonunit
+
+theorem refines_BlockExtra : RefinesP PV (SrcBlk.BlockExtra false) blockExtra view_BlockExtra := by
+  tx_refine [blockExtra, inMsgDescr, outMsgDescr, shardAccountBlocks, SrcBlk.BlockExtra, view_BlockExtra, ref_dec,
+    augKV (x := SrcTx.InMsg 3 false) (y := SrcTx.ImportFees false) Tx.refines_InMsg.toE Tx.refines_ImportFees 256,
+    augKV (x := SrcTx.OutMsg 3 false) (y := SrcTx.CurrencyCollection false) Tx.refines_OutMsg.toE Tx.refines_CurrencyCollection 256,
+    augKV (x := SrcBlk.AccountBlock false) (y := SrcTx.CurrencyCollection false) refines_AccountBlock.toE Tx.refines_CurrencyCollection 256,
+    optRefK (r := SrcBlk.McBlockExtra) refines_McBlockExtra nonUnit_mcBlockExtra]
+
 end TonVerif.Tlb.Blk
